@@ -47,7 +47,7 @@ def gen_schema(rng: random.Random, max_fields=4, types=None):
     return [(n, rng.choice(types)) for n in names]
 
 
-RESERVED_LOOKING = ["index", "level_0", "_index"]
+RESERVED_LOOKING = ["index", "level_0", "_index", "nt", "n", "n_b"]     # also names that begin like the nested column the streams call "n"
 
 
 def spice_names(rng: random.Random, schema, p=0.12):
